@@ -119,11 +119,14 @@ EXTRA_MODULES = {
     "C01": ["CodeLimit.Lemmas.GenTie", "CodeLimit.Props.C01disc", "CodeLimit.Props.C01py", "CodeLimit.Props.C01syn",
             "CodeLimit.Props.C01tree", "CodeLimit.Props.C01pyfull", "CodeLimit.Props.C01text", "CodeLimit.Props.C01full",
             "CodeLimit.Props.C01arrow", "CodeLimit.Props.C01marks", "CodeLimit.Props.C01pytext", "CodeLimit.Props.C01marktext"],
-    "C03": ["CodeLimit.Lemmas.GenTie"],
+    "C02": ["CodeLimit.Props.Gaps"],
+    "C03": ["CodeLimit.Lemmas.GenTie", "CodeLimit.Props.Gaps"],
+    "C10": ["CodeLimit.Props.Gaps"],
     "C04": ["CodeLimit.Lemmas.GenTie", "CodeLimit.Props.C01marks"],
     "C05": ["CodeLimit.Lemmas.GenTie", "CodeLimit.Props.C05text"],
-    "C11": ["CodeLimit.Props.C11pat", "CodeLimit.Props.C11patRegex"],
-    "C12": ["CodeLimit.Props.C11pat"],
+    "C09": ["CodeLimit.Props.Pipeline"],
+    "C11": ["CodeLimit.Props.C11pat", "CodeLimit.Props.C11patRegex", "CodeLimit.Props.Pipeline"],
+    "C12": ["CodeLimit.Props.C11pat", "CodeLimit.Props.Pipeline"],
     "C17": ["CodeLimit.Lemmas.GenTie", "CodeLimit.Props.C01marks"],
 }
 
